@@ -386,6 +386,32 @@ static void redundant_equalities(int n, int depth) {
         } while (mcx::odo_next(idx, (int)alpha.size()) && !ctx.stopped()); }
 }
 
+
+// ---- part A-4: two splitting groups around a middle block (what a later pass of the static solver's refine() sees of an earlier one) -------------------
+// Left group {v0,v1,v2}: v0+2<=v1, v0+2<=v2 with v2 heavy, so satisfy() merges all three and refine() later splits v1 off (v1 moves RIGHT, towards the middle).
+// Middle v4 with two incoming constraints, from v1 and from a free v3.  Right group {v5,v6,v7}: v4+gC<=v5, v5+2<=v6, v5+2<=v7, which refine() also splits,
+// after which {v5,v7} moves LEFT and drags v4 with it.  Every combination of the gaps, desired positions and weights below x the orders of each group's
+// constraints in the vector x which group comes first.  All systems are acyclic and feasible.
+static void two_groups() {
+    ctx.phase("two splitting groups around a middle block: 3^5*2*3^2 parameter settings x 16 constraint orders; static solve/satisfy and incremental solve");
+    const double A[3] = {3, 5, 7}, GA[3] = {1, 3, 5}, GB[3] = {1, 3, 5}, GC[3] = {3.5, 5.5, 7.5}, D4[3] = {8, 10, 12}, D5[2] = {18, 20}, D7[3] = {8, 10, 12}, W7[3] = {1, 2, 4};
+    vector<int> radix = {3, 3, 3, 3, 3, 2, 3, 3}, idx(8, 0);
+    do {
+        if (ctx.stopped()) return; if (!ctx.next()) continue;
+        for (int ord = 0; ord < 16; ord++) {
+            Inst I; I.n = 8; I.sc.assign(8, 1); I.d = {A[idx[0]], A[idx[0]], 0, 5, D4[idx[4]], D5[idx[5]], 21, D7[idx[6]]}; I.w = {1, 1, 10, 1, 1, 1, 4, W7[idx[7]]};
+            vector<SepC> g1 = {{0, 2, 2, false}, {0, 1, 2, false}}, mid = {{1, 4, GA[idx[1]], false}, {3, 4, GB[idx[2]], false}}, g2 = {{4, 5, GC[idx[3]], false}, {5, 7, 2, false}, {5, 6, 2, false}};
+            if (ord & 1) swap(g1[0], g1[1]); if (ord & 2) swap(mid[0], mid[1]); if (ord & 4) swap(g2[1], g2[2]);
+            vector<vector<SepC>> parts = (ord & 8) ? vector<vector<SepC>>{g2, mid, g1} : vector<vector<SepC>>{g1, mid, g2}; for (auto &pp : parts) for (auto &c : pp) I.cs.push_back(c);
+            ctx.count("states"); ctx.count("nontrivial");
+            vector<double> opt; int nact = 0; bool haveOpt = oracle::qp_active_set(I.n, I.d, I.w, I.sc, I.cs, opt, &nact);
+            for (int kind : {2, 3, 0}) { Outcome o = run_instance<NSvpsc>(I, kind); judge(I, o, mcx::fmt("vpsc::%s.%s", kind < 2 ? "IncSolver" : "Solver", kind % 2 ? "satisfy" : "solve"), kind >= 2, kind % 2 == 0, true, false, false, haveOpt ? &opt : nullptr); }
+        }
+        ctx.sample(mcx::fmt("two groups setting #%d%d%d%d...", idx[0], idx[1], idx[2], idx[3]), 1);
+        ctx.done_case();
+    } while (mcx::odo_next(idx, radix));
+}
+
 // ---- part B: histories on one live IncSolver --------------------------------------
 struct Op { int kind; int a; double v; SepC c; };   // 0 add c, 1 desired[a]:=v, 2 solve, 3 satisfy
 static string op_str(const Op &p) {
@@ -474,6 +500,7 @@ int main(int argc, char **argv) {
     addresolves<NSvpsc>(3, 2, false); addresolves<NSavoid>(3, 2, false);
     families<NSvpsc>(T); families<NSavoid>(T);
     if (P1) { redundant_equalities(3, 3); redundant_equalities(4, 2); if (T) { redundant_equalities(3, 4); redundant_equalities(4, 3); } }
+    two_groups();
     fanin(3, true); fanin(4, false); if (T) { fanin(4, true); fanin(5, false); }
     histories<NSvpsc>(3, 3, 0, false);
     histories<NSvpsc>(3, 4, 0, false);
